@@ -2924,6 +2924,10 @@ def convert_conv_groups(op: Operation, arch, nng):
         # output is the concatenated tensor
         concat_op.set_output_tensor(op.ofm)  # will disconnect ofm from op
 
+        def quant_slice(values, start, end):
+            # only per-channel scales and zero points are split; per-tensor ones are scalars and apply to every group
+            return values[..., start:end] if np.size(values) > 1 else values
+
         # for each conv group
         for i in range(num_conv_groups):
             # cg params
@@ -2950,8 +2954,12 @@ def convert_conv_groups(op: Operation, arch, nng):
             # across all of the convolution groups
             conv_group_op_weights_shape = op.weights.shape[:-1] + [num_filters_cg]
             conv_group_op_weights_quant = op.weights.quantization.clone()
-            conv_group_op_weights_quant.scale_f32 = op.weights.quantization.scale_f32[..., cg_oc_start:cg_oc_end]
-            conv_group_op_weights_quant.zero_point = op.weights.quantization.zero_point[..., cg_oc_start:cg_oc_end]
+            conv_group_op_weights_quant.scale_f32 = quant_slice(
+                op.weights.quantization.scale_f32, cg_oc_start, cg_oc_end
+            )
+            conv_group_op_weights_quant.zero_point = quant_slice(
+                op.weights.quantization.zero_point, cg_oc_start, cg_oc_end
+            )
             conv_group_op.add_input_tensor(
                 create_const_tensor(
                     f"{op.weights.name}_cg{i}",
@@ -2969,8 +2977,12 @@ def convert_conv_groups(op: Operation, arch, nng):
             else:
                 conv_group_op_bias_shape = op.bias.shape[:-1] + [num_filters_cg]
                 conv_group_op_bias_quant = op.bias.quantization.clone()
-                conv_group_op_bias_quant.scale_f32 = op.bias.quantization.scale_f32[..., cg_oc_start:cg_oc_end]
-                conv_group_op_bias_quant.zero_point = op.bias.quantization.zero_point[..., cg_oc_start:cg_oc_end]
+                conv_group_op_bias_quant.scale_f32 = quant_slice(
+                    op.bias.quantization.scale_f32, cg_oc_start, cg_oc_end
+                )
+                conv_group_op_bias_quant.zero_point = quant_slice(
+                    op.bias.quantization.zero_point, cg_oc_start, cg_oc_end
+                )
                 conv_group_op.add_input_tensor(
                     create_const_tensor(
                         f"{op.bias.name}_cg{i}",
